@@ -91,7 +91,22 @@ def main():
         except Exception as ex:
             cs = [[99]]
             errs.append('callstacks:' + type(ex).__name__)
-        results.append({'decodes': decs, 'callstacks': cs, 'errors': errs,
+        stream = None
+        if req.get('stream'):
+            # the same records, in order, through feed(): what each record makes the parser hand out
+            sp = TracesParser(codes, dict(declared), {4242: 'declared-a', 4343: 'declared-b'} if declared else {})
+            stream = []
+            for w in case:
+                for code, vals, ts, tid, q in w:
+                    e = Kevent(ts, struct.pack('<QQQQ', *vals), tuple(vals), tid, code | q, code, q)
+                    try:
+                        t = sp.feed(e)
+                        stream.append(None if t is None else enc(t))
+                    except ValueError:
+                        stream.append([4, 0])
+                    except Exception as ex:
+                        stream.append([99, type(ex).__name__])
+        results.append({'decodes': decs, 'callstacks': cs, 'errors': errs, 'stream': stream,
                         'threads_pids': sorted([k, v] for k, v in parser.threads_pids.items() if declared.get(k) != v)})
     json.dump({'results': results}, sys.stdout)
 
